@@ -51,5 +51,7 @@ CFG = dict(
          "client-stream + server-stream RPCs compared with the direct-connection outcomes",
     assumptions=["payloads and keys are opaque to the Demux (tokens); the key function and the callback return",
                  "the shared transport returns queued envelopes in order, honours its context in Read and in a blocked Write",
+                 "the shared transport's Write is safe to call from several writer goroutines at once and each call is atomic (the model's r_dw_write is "
+                 "one step per envelope; demux.go calls gsd.rw.Write from every per-connection writer goroutine without a lock of its own)",
                  "quiescence = testing/synctest's durable blocking; goroutine roles are read from runtime.Stack frames"],
 )
